@@ -86,6 +86,18 @@ theorem C05_model_matches_real (DM r f : Rat) :
   unfold phaseTurns timeDelay phaseTurnsR delayR
   constructor <;> push_cast <;> simp [one_div]
 
+/-- **infinite reference frequency** (`ref_freq = inf`, the customary convention): writing the
+reference by its reciprocal `ir = 1/ref`, the finite case is the same function, and at `ir = 0` the
+phase is `K·DM/f` and the delay `K·DM/f²` — finite, so an infinite reference is a legitimate input
+(no `inf/inf`). -/
+theorem C05_infinite_reference (DM r f : Rat) (hf : f ≠ 0) :
+    phaseTurns DM r f = phaseTurnsInv DM (1 / r) f ∧ timeDelay DM f r = timeDelayInv DM f (1 / r) ∧
+    phaseTurnsInv DM 0 f = K * DM / f ∧ timeDelayInv DM f 0 = K * DM / f ^ 2 := by
+  refine ⟨rfl, ?_, ?_, ?_⟩
+  · unfold timeDelay timeDelayInv; simp [one_div, inv_pow]
+  · unfold phaseTurnsInv; field_simp; ring
+  · unfold timeDelayInv; field_simp; ring
+
 /-! ### crop to valid times -/
 
 theorem le_ceil (a : Rat) : a ≤ (Crop.ceil a : Rat) := by
